@@ -182,10 +182,11 @@ def ancestors_ops(prog, var):
 
 @excl("KF-layout-drift-over-shuffle")
 def _swv_over_shuffle(prog, vals):
-    """A sliding window or repeat (blockwise with per-block adjust_chunks frozen at construction) downstream of a shuffle/take/int-list index."""
+    """A sliding window, repeat (blockwise with per-block adjust_chunks frozen at construction) or broadcast_to
+    (its own chunks frozen at construction) downstream of a shuffle/take/int-list index."""
     L = len(prog["leaves"])
     for k, s in enumerate(prog["stmts"]):
-        if s["op"] in ("sliding_window_view", "repeat"):
+        if s["op"] in ("sliding_window_view", "repeat", "broadcast_to", "swv_reduce"):
             up = [o for a in s["args"] for o in ancestors_ops(prog, a)]
             if any(o in ("shuffle", "take", "getitem_list") for o in up):
                 return True
